@@ -5,4 +5,10 @@ import (
 	"verifharness/pipeline"
 )
 
-func main() { emit.Main("C04", pipeline.RunFor("C04")) }
+func main() {
+	// the profile runs in a worker process (a crash of the pipeline becomes a finding)
+	if pipeline.ChildMain() {
+		return
+	}
+	emit.Main("C04", pipeline.Supervised("C04"))
+}
